@@ -16,7 +16,7 @@ use serde_json::Value;
 #[derive(Clone, Copy, Debug)]
 pub enum PsPoint {
     /// subscriber `pos` of `n` fails at `op` once `k` messages were handed to it
-    Sink { n: usize, pos: usize, op: Op, k: usize },
+    Sink { n: usize, pos: usize, op: Op, k: usize, only_op: bool },
     /// publisher `pos` of `n` yields Err (or ends) after `k` of its messages
     Stream { n: usize, pos: usize, end: bool, k: usize },
 }
@@ -27,7 +27,11 @@ pub fn ps_points() -> Vec<PsPoint> {
         for pos in 0..n {
             for op in Op::ALL {
                 for k in 0..=6 {
-                    v.push(PsPoint::Sink { n, pos, op, k });
+                    v.push(PsPoint::Sink { n, pos, op, k, only_op: false });
+                }
+                // the same placements with only that operation failing (the sink otherwise works)
+                for k in [0usize, 1, 3] {
+                    v.push(PsPoint::Sink { n, pos, op, k, only_op: true });
                 }
             }
         }
@@ -46,7 +50,7 @@ pub fn ps_points() -> Vec<PsPoint> {
 
 pub fn gen_ps(point: PsPoint, rng: &mut Rng) -> PsScript {
     let (n_subs, n_pubs, fails, fault_stream) = match point {
-        PsPoint::Sink { n, pos, op, k } => (n, rng.usize(1, 2), vec![SinkFail { s: pos, op, k }], None),
+        PsPoint::Sink { n, pos, op, k, only_op } => (n, rng.usize(1, 2), vec![SinkFail { s: pos, op, k, only_op }], None),
         PsPoint::Stream { n, pos, end, k } => (rng.usize(1, 3), n, vec![], Some((pos, end, k))),
     };
     let boundaries: Vec<usize> = (0..n_subs).map(|_| rng.usize(1, 3)).collect();
@@ -141,9 +145,9 @@ impl Family for PsFailEnum {
 #[derive(Clone, Copy, Debug)]
 pub enum RrPoint {
     /// requestor `pos` of `n`: its sink fails at `op` once `k` replies were handed to it
-    ReqSink { n: usize, pos: usize, op: Op, k: usize },
+    ReqSink { n: usize, pos: usize, op: Op, k: usize, only_op: bool },
     /// the bound replier's sink fails at `op` once `k` requests were handed to it; a fresh replier registers afterwards
-    RepSink { op: Op, k: usize },
+    RepSink { op: Op, k: usize, only_op: bool },
     /// requestor `pos` of `n`: its stream errs / ends after `k` requests
     ReqStream { n: usize, pos: usize, end: bool, k: usize },
     /// the replier's stream errs / ends after `k` replies; a fresh replier registers afterwards
@@ -156,14 +160,18 @@ pub fn rr_points() -> Vec<RrPoint> {
         for pos in 0..n {
             for op in Op::ALL {
                 for k in 0..=4 {
-                    v.push(RrPoint::ReqSink { n, pos, op, k });
+                    v.push(RrPoint::ReqSink { n, pos, op, k, only_op: false });
+                }
+                for k in [0usize, 2] {
+                    v.push(RrPoint::ReqSink { n, pos, op, k, only_op: true });
                 }
             }
         }
     }
     for op in Op::ALL {
         for k in 0..=5 {
-            v.push(RrPoint::RepSink { op, k });
+            v.push(RrPoint::RepSink { op, k, only_op: false });
+            v.push(RrPoint::RepSink { op, k, only_op: true });
         }
     }
     for n in 2..=3 {
@@ -194,8 +202,8 @@ pub fn gen_rr(point: RrPoint, rng: &mut Rng) -> RrScript {
     let gates = vec![true; n_sinks];
     let mut fails = vec![];
     match point {
-        RrPoint::ReqSink { pos, op, k, .. } => fails.push(RrFail { sink: pos, op, k }),
-        RrPoint::RepSink { op, k } => fails.push(RrFail { sink: n_req, op, k }),
+        RrPoint::ReqSink { pos, op, k, only_op, .. } => fails.push(RrFail { sink: pos, op, k, only_op }),
+        RrPoint::RepSink { op, k, only_op } => fails.push(RrFail { sink: n_req, op, k, only_op }),
         _ => {}
     }
     let mut steps = vec![];
